@@ -31,7 +31,7 @@ def strat_line():
         return dict(C=C, labels=labels, seed=draw(st.integers(0, 2 ** 31 - 1)),
                     confuse=draw(st.sampled_from([0.0, 0.3, 0.8])), peak=draw(st.sampled_from([(6.0, 14.0), (1.0, 3.0), (25.0, 30.0)])),
                     full=draw(st.booleans()), shifts_seed=draw(st.integers(0, 2 ** 31 - 1)),
-                    window=draw(st.booleans()))
+                    window=draw(st.booleans()), tight=draw(st.integers(0, 5)) == 0)
     return case()
 
 
@@ -44,6 +44,10 @@ def make_line(case, shift=None, onehot=False):
     path = frames_for_labels(case["labels"], blank, rs)
     a = rs.randint(0, 3)
     b = rs.randint(0, 3)
+    if case.get("tight") and all(x != y for x, y in zip(case["labels"], case["labels"][1:])):
+        # the valid window holds exactly one frame per character (no blanks in between), padding frames in front
+        path = list(case["labels"])
+        a = 1 + rs.randint(0, 3)
     full = [blank] * a + path + [blank] * b
     dense = logits_for_path(full, C, rs, peak=case["peak"], confuse=case["confuse"], overshoot=0.3)
     if onehot:
